@@ -1,17 +1,19 @@
 #!/bin/bash
+# optional env EVAL_TAG=<suffix>: use /tmp/evalrepo$T<suffix> and /tmp/evalverif$T<suffix> (one environment per worker)
+T=${EVAL_TAG:-}
 # evalenv.sh : (re)create a scratch evaluation environment so seeded patches can be tried without touching /repo:
-#   /tmp/evalrepo   = worktree of /repo HEAD
-#   /tmp/evalverif  = copy of /verif (sources + target cache) with every /repo -> /tmp/evalrepo and /verif -> /tmp/evalverif
+#   /tmp/evalrepo$T   = worktree of /repo HEAD
+#   /tmp/evalverif$T  = copy of /verif (sources + target cache) with every /repo -> /tmp/evalrepo$T and /verif -> /tmp/evalverif$T
 set -e
-git -C /repo worktree remove --force /tmp/evalrepo 2>/dev/null || true
+git -C /repo worktree remove --force /tmp/evalrepo$T 2>/dev/null || true
 git -C /repo worktree prune
-git -C /repo worktree add --detach /tmp/evalrepo HEAD >/dev/null
-mkdir -p /tmp/evalverif
-rsync -a --delete --exclude .git --exclude replays --exclude 'target/fuzz*' /verif/ /tmp/evalverif/
-cd /tmp/evalverif
-sed -i 's|path = "/repo/|path = "/tmp/evalrepo/|' harness/Cargo.toml harness/fuzz/Cargo.toml
-sed -i 's|pub const VERIF_ROOT: &str = "/verif";|pub const VERIF_ROOT: \&str = "/tmp/evalverif";|' harness/vcore/src/lib.rs
-sed -i 's|^ROOT=/verif$|ROOT=/tmp/evalverif|' vf
-grep -rl '"/verif' harness --include=*.rs --include=*.py --include=*.sh | grep -v target | xargs -r sed -i 's|"/verif|"/tmp/evalverif|g'
-grep -rl "'/verif\|/verif/" harness/*.py harness/*/*.sh 2>/dev/null | xargs -r sed -i 's|/verif/|/tmp/evalverif/|g'
+git -C /repo worktree add --detach /tmp/evalrepo$T HEAD >/dev/null
+mkdir -p /tmp/evalverif$T
+rsync -a --delete --exclude .git --exclude replays --exclude 'target/fuzz*' /verif/ /tmp/evalverif$T/
+cd /tmp/evalverif$T
+sed -i "s|path = \"/repo/|path = \"/tmp/evalrepo$T/|" harness/Cargo.toml harness/fuzz/Cargo.toml
+sed -i "s|pub const VERIF_ROOT: &str = \"/verif\";|pub const VERIF_ROOT: \&str = \"/tmp/evalverif$T\";|" harness/vcore/src/lib.rs
+sed -i "s|^ROOT=/verif\$|ROOT=/tmp/evalverif$T|" vf
+grep -rl '"/verif' harness --include=*.rs --include=*.py --include=*.sh | grep -v target | xargs -r sed -i "s|\"/verif|\"/tmp/evalverif$T|g"
+grep -rl "'/verif\|/verif/" harness/*.py harness/*/*.sh 2>/dev/null | xargs -r sed -i "s|/verif/|/tmp/evalverif$T/|g"
 echo ready
